@@ -205,3 +205,19 @@ func (w *World) settleWait(limit time.Duration) settleResult {
 		}
 	}
 }
+
+// Leftover waits briefly for the goroutines of a shut-down world to exit and
+// returns a description of any that remain (they would poison later cases).
+func (w *World) Leftover() string {
+	deadline := time.Now().Add(4 * time.Second)
+	for {
+		r := dump()
+		if r.busy == 0 && r.parked == 0 {
+			return ""
+		}
+		if time.Now().After(deadline) {
+			return r.firstBusy + "\n" + DumpAll()
+		}
+		time.Sleep(2 * time.Millisecond)
+	}
+}
